@@ -5,6 +5,7 @@ package dnsserver
 // the post-condition of dns.Msg.Unpack.
 
 import (
+	"crypto/tls"
 	"net"
 
 	"github.com/facebookincubator/dns/dnsrocks/db"
@@ -71,6 +72,9 @@ func (w *verifWriter) TsigStatus() error   { return nil }
 func (w *verifWriter) TsigTimersOnly(bool) {}
 func (w *verifWriter) Hijack()             {}
 
+// ConnectionState: miekg's own response writer implements dns.ConnectionStater; plain UDP/TCP has no TLS state.
+func (w *verifWriter) ConnectionState() *tls.ConnectionState { return nil }
+
 // ---- worlds ----
 
 var (
@@ -113,6 +117,8 @@ func verifZoneWorld() []dnsdata.VerifRec {
 		{Kind: '+', Dom: []byte("l.z"), TTL: 305, IP: []byte{192, 0, 2, 77}, Weight: 1, Loc: verifL1},
 		{Kind: '+', Dom: []byte("l.z"), TTL: 306, IP: []byte{192, 0, 2, 78}, Weight: 1},
 		{Kind: '@', Dom: []byte("m.z"), TTL: 307, Target: []byte("mx.z"), Dist: 10, IP: []byte{192, 0, 2, 25}},
+		{Kind: '\'', Dom: []byte("p.z"), TTL: 308, Txt: []byte("for-L1"), Loc: verifL1},
+		{Kind: '\'', Dom: []byte("p.z"), TTL: 309, Txt: []byte("for-all")},
 	}
 	return append(recs, verifMaps()...)
 }
@@ -161,7 +167,11 @@ func verifNewHandler(dbi db.DBI, cache CacheConfig) *verifEnv {
 }
 
 func verifWorldHandler(world, layout int, cache CacheConfig) *verifEnv {
-	dbi, err := db.VerifBuildStore(verifWorldRecords(world), layout)
+	return verifRecordsHandler(verifWorldRecords(world), layout, cache)
+}
+
+func verifRecordsHandler(recs []dnsdata.VerifRec, layout int, cache CacheConfig) *verifEnv {
+	dbi, err := db.VerifBuildStore(recs, layout)
 	nd.Assert(err == nil, "store-built")
 	return verifNewHandler(dbi, cache)
 }
